@@ -13,7 +13,11 @@ TEXT_BODY = " the quick brown fox jumps over the lazy dog; the quick brown fox a
 
 
 def payload_for(thread, k):
-    return "%s-%d:%s" % (thread, k, TEXT_BODY)
+    """Payloads of different senders share a long body (so that a deflate context mixed up between them matters) but
+    differ in length and in what precedes the body (so that a back-reference computed in ONE sender's private history
+    lands on different bytes in the real wire history)."""
+    filler = thread.lower() * (3 + (ord(thread[0]) * 7 + k * 3) % 11) + "/" + str(k) * (k + 1)
+    return "%s-%d:%s%s" % (thread, k, filler, TEXT_BODY)
 
 
 def big_payload(thread, k, n):
